@@ -245,6 +245,7 @@ func init() {
 			return Value{}
 		}
 	}
+	reg("(*testing.common).Helper", nop) // marks a frame for log attribution only (needs runtime.Callers)
 	reg("(*sync.Mutex).Lock", lockEv("L"))
 	reg("(*sync.Mutex).Unlock", lockEv("U"))
 	reg("(*sync.RWMutex).Lock", lockEv("L"))
